@@ -53,6 +53,22 @@ impl<'a> Proj<'a> {
         }
     }
 
+    /// value of a usize const expression used as an array size (the documented meaning: sums, differences, max, min
+    /// over literals and named sizes)
+    fn const_usize(&self, c: &ConstExpr) -> Option<i128> {
+        Some(match &c.0 {
+            ConstExprEnum::NumUnsigned(n, _) => *n as i128,
+            ConstExprEnum::NumSigned(n, _) => *n as i128,
+            ConstExprEnum::ConstExprIdent(n) => *self.const_sizes.get(n)? as i128,
+            ConstExprEnum::ExternalValue { party, identifier } => *self.const_sizes.get(&format!("{party}::{identifier}"))? as i128,
+            ConstExprEnum::Max(xs) => { let mut m: Option<i128> = None; for x in xs { let v = self.const_usize(x)?; m = Some(m.map_or(v, |a| a.max(v))); } m? }
+            ConstExprEnum::Min(xs) => { let mut m: Option<i128> = None; for x in xs { let v = self.const_usize(x)?; m = Some(m.map_or(v, |a| a.min(v))); } m? }
+            ConstExprEnum::Add(a, b) => self.const_usize(a)? + self.const_usize(b)?,
+            ConstExprEnum::Sub(a, b) => self.const_usize(a)? - self.const_usize(b)?,
+            _ => return None,
+        })
+    }
+
     pub fn ty(&mut self, t: &Type) -> Value {
         match t {
             Type::Bool => json!({"k":"bool"}),
@@ -69,7 +85,10 @@ impl<'a> Proj<'a> {
                 Some(n) => json!({"k":"arr","e":self.ty(e),"n":n}),
                 None => { self.oom.push(format!("unresolved const size {c}")); json!({"k":"arr","e":self.ty(e),"n":0}) }
             },
-            Type::ArrayConstExpr(e, _) => { self.oom.push("const-expr array size".into()); json!({"k":"arr","e":self.ty(e),"n":0}) }
+            Type::ArrayConstExpr(e, c) => match self.const_usize(c) {
+                Some(n) if n >= 0 => json!({"k":"arr","e":self.ty(e),"n":n as i64}),
+                _ => { self.oom.push("const-expr array size".into()); json!({"k":"arr","e":self.ty(e),"n":0}) }
+            },
             Type::Tuple(fs) => { let v: Vec<Value> = fs.iter().map(|f| self.ty(f)).collect(); json!({"k":"tup","fs":v}) }
             Type::Struct(n) => json!({"k":"struct","name":n}),
             Type::Enum(n) => json!({"k":"enum","name":n}),
@@ -155,7 +174,13 @@ impl<'a> Proj<'a> {
             PatternEnum::UnsignedInclusiveRange(lo, hi, _) => json!({"k":"prange","lo":self.num(*lo as i128),"hi":self.num(*hi as i128)}),
             PatternEnum::SignedInclusiveRange(lo, hi, _) => json!({"k":"prange","lo":self.num(*lo as i128),"hi":self.num(*hi as i128)}),
         };
-        v["ty"] = ty;
+        // number patterns carry the type that was written (literal suffix) if there is one
+        let written = match pe {
+            PatternEnum::NumUnsigned(_, sfx) | PatternEnum::UnsignedInclusiveRange(_, _, sfx) if *sfx != UnsignedNumType::Unspecified => Some(Type::Unsigned(*sfx)),
+            PatternEnum::NumSigned(_, sfx) | PatternEnum::SignedInclusiveRange(_, _, sfx) if *sfx != SignedNumType::Unspecified => Some(Type::Signed(*sfx)),
+            _ => None,
+        };
+        v["ty"] = match written { Some(t) => self.ty(&t), None => ty };
         v["m"] = meta(m);
         v
     }
@@ -205,7 +230,7 @@ impl<'a> Proj<'a> {
         for (n, d) in self.prg.fn_defs.iter() {
             let ps: Vec<Value> = d.params.iter().map(|p| json!({"n":p.name,"t":self.ty(&p.ty),"mut":matches!(p.mutability, Mutability::Mutable)})).collect();
             let body: Vec<Value> = d.body.iter().map(|s| self.stmt(s)).collect();
-            fns.insert(n.clone(), json!({"params":ps,"ret":self.ty(&d.ty),"body":body}));
+            fns.insert(n.clone(), json!({"params":ps,"ret":self.ty(&d.ty),"body":body,"pub":d.is_pub}));
         }
         // top-level constants: only literal-valued ones are inside the model (see ConstEval for the rest)
         let mut consts = serde_json::Map::new();
